@@ -461,7 +461,7 @@ func genH1Case(t *tape.Tape, tier, mode string) *h1Case {
 	richReq, richResp := mode == "req", mode == "resp"
 	if mode == "req" {
 		if t.Chance(1, 4) {
-			c.ReqRules = append(c.ReqRules, []string{"X-Added-By-Rule: rule-value", "-X-Custom-A", "X-Empty;", "Cache-Control: from-rule"}[t.Intn(4)])
+			c.ReqRules = append(c.ReqRules, []string{"X-Added-By-Rule: rule-value", "-X-Custom-A", "X-Empty;", "Cache-Control: from-rule", "-User-Agent", "%user-agent", "-Authorization", "-X-Custom*"}[t.Intn(8)])
 		}
 		c.Creds = t.Chance(1, 5)
 	} else if t.Chance(1, 4) {
@@ -515,6 +515,10 @@ func genH1Case(t *tape.Tape, tier, mode string) *h1Case {
 			}
 			if last && t.Chance(1, 6) {
 				r.Proto = "HTTP/1.0"
+				if t.Chance(1, 2) {
+					// an HTTP/1.0 client that asks for a persistent connection
+					r.Fields = append(r.Fields, h1.Field{Name: "Connection", Value: "keep-alive"})
+				}
 				if r.BodyKind == "chunked" {
 					r.BodyKind = "cl"
 					r.Chunks = nil
@@ -743,6 +747,8 @@ func applyRule(m map[string][]string, rule string) {
 				delete(m, k)
 			}
 		}
+	case strings.HasPrefix(rule, "%"):
+		// spelling of the name only
 	case strings.HasPrefix(rule, "-"):
 		delete(m, lower(rule[1:]))
 	case strings.HasSuffix(rule, ";"):
@@ -999,8 +1005,8 @@ func (w *h1World) checkRequest(rec *clientRec, or *originRec, siteUser, sitePass
 	} else if v := om["accept-encoding"]; len(v) > 0 && !(len(v) == 1 && v[0] == "gzip") {
 		env.Fail("req-accept-encoding", f, "%s: client sent no Accept-Encoding, next hop received %q", tok, v)
 	}
-	// User-Agent
-	ua := cm["user-agent"]
+	// User-Agent (after the configured rules)
+	ua := exp["user-agent"]
 	nonEmpty := false
 	for _, v := range ua {
 		if v != "" {
@@ -1014,7 +1020,7 @@ func (w *h1World) checkRequest(rec *clientRec, or *originRec, siteUser, sitePass
 	} else {
 		for _, v := range om["user-agent"] {
 			if v != "" {
-				env.Fail("req-user-agent", f+"/invented", "%s: client sent no User-Agent, next hop received %q", tok, v)
+				env.Fail("req-user-agent", f+"/invented", "%s: client sent no User-Agent (or a rule removed it), next hop received %q", tok, v)
 			}
 		}
 	}
